@@ -260,7 +260,7 @@ func writeResponse(res *promql.Result, w http.ResponseWriter) error {
 
 func writeScalar(res *promql.Result, w http.ResponseWriter) error {
 	val := res.Value.(promql.Scalar)
-	w.Write([]byte(fmt.Sprintf(`%f, "%f"`, float64(val.T)/1000, val.V)))
+	w.Write([]byte(fmt.Sprintf(`%f, "%s"`, float64(val.T)/1000, strconv.FormatFloat(val.V, 'f', -1, 64))))
 	return nil
 }
 
